@@ -343,10 +343,23 @@ fn is_valid_linebreak(input: &[&str], pos: usize) -> bool {
         return true;
     }
     let is_punctuation = is_punctuation(input[pos]);
-    if is_punctuation && !is_part_of_type(input, pos) {
+    if is_punctuation && !is_part_of_type(input, pos) && !starts_escape_sequence(input, pos) {
         return true;
     }
     false
+}
+
+/// A backslash that is not itself escaped starts an escape sequence: ending the line right
+/// after it would cut the sequence in two and make the backslash a line continuation.
+fn starts_escape_sequence(input: &[&str], pos: usize) -> bool {
+    input[pos] == "\\"
+        && input[..pos]
+            .iter()
+            .rev()
+            .take_while(|grapheme| **grapheme == "\\")
+            .count()
+            % 2
+            == 0
 }
 
 fn is_part_of_type(input: &[&str], pos: usize) -> bool {
